@@ -181,6 +181,21 @@ def template_specs():
         ('start: w{_C}\nw{x}: k{x} [x] A\n!k{x}: x B?\n',
          [rule('start', [('', R('w_c'))]), rule('w_c', [('w', E.seq([R('k_c'), E.maybe(C_), A]))]), rule('k_c', [('k', E.seq([C_, E.opt(B)]))], keepall=True)]),
     ]
+    # an anonymous literal with the text of a NAMED terminal takes its name but is filtered: "a"+ and A+ are different
+    # expressions (hunted defect 42: the helper-rule cache compared symbols by name, so y: A+ got the helper of x: "a"+)
+    Af = dict(A, keep=False)
+    cases += [
+        ('start: x B y\nx: "a"+\ny: A+\n',
+         [rule('start', [('', E.seq([R('x'), B, R('y')]))]), rule('x', [('', E.rep(Af, 1, -1))]), rule('y', [('', E.rep(A, 1, -1))])]),
+        ('start: y B x\ny: A+\nx: "a"+\n',
+         [rule('start', [('', E.seq([R('y'), B, R('x')]))]), rule('y', [('', E.rep(A, 1, -1))]), rule('x', [('', E.rep(Af, 1, -1))])]),
+        ('start: x B y\nx: "a"* B\ny: (A B?)* \n',
+         [rule('start', [('', E.seq([R('x'), B, R('y')]))]), rule('x', [('', E.seq([E.rep(Af, 0, -1), B]))]), rule('y', [('', E.rep(E.seq([A, E.opt(B)]), 0, -1))])]),
+        ('start: x B y\nx: ("a" B?)+\ny: (A B?)+\n',
+         [rule('start', [('', E.seq([R('x'), B, R('y')]))]), rule('x', [('', E.rep(E.seq([Af, E.opt(B)]), 1, -1))]), rule('y', [('', E.rep(E.seq([A, E.opt(B)]), 1, -1))])]),
+        ('start: r{"a"} B r{A}\nr{x}: x+\n',
+         [rule('start', [('', E.seq([R('r_1'), B, R('r_2')]))]), rule('r_1', [('r', E.rep(Af, 1, -1))]), rule('r_2', [('r', E.rep(A, 1, -1))])]),
+    ]
     import itertools
     words = [w for k in range(1, 6) for w in itertools.product(['A', 'B', '_C', 'D'], repeat=k)]
     for text, rules in cases:
